@@ -10,6 +10,7 @@ import (
 	"fmt"
 	"os"
 	"path/filepath"
+	"runtime"
 	"strings"
 	"sync"
 	"time"
@@ -745,7 +746,20 @@ func (w *World) Notify(chain string, tip uint32) {
 		rw.HandleCsvTx(uint64(tip))
 		return
 	}
-	w.Chain[chain].hdr <- &goelectrum.SubscribeHeadersResult{Height: int32(tip)}
+	// the watcher goroutine takes one header at a time: a header it can not take now is dropped
+	h := &goelectrum.SubscribeHeadersResult{Height: int32(tip)}
+	deadline := time.Now().Add(20 * time.Millisecond)
+	for {
+		select {
+		case w.Chain[chain].hdr <- h:
+			return
+		default:
+		}
+		if time.Now().After(deadline) {
+			return
+		}
+		runtime.Gosched()
+	}
 }
 
 // Timers returns the ids of the armed, not cancelled timers.
